@@ -5,13 +5,13 @@
 mod erased;
 mod mw;
 mod stacks;
+mod trigger;
 
 use erased::{EOut, Erased, ErasedSvc, Probe, ProbeLog};
 use mw::{build, Listeners, Mode, Mw, ALL};
 use serde_json::json;
 use std::panic::{catch_unwind, AssertUnwindSafe};
 use std::sync::{Arc, Mutex};
-use tower::Service;
 use trv_core::evidence::{Report, Tier, Violation};
 use trv_core::inner::{CallStatus, GatedInner, InnerErr, Mode as InnerMode, Out, Plan, ReadyAns, Req, Resp};
 use trv_core::world::World;
@@ -345,6 +345,7 @@ fn main() {
     let mut ctx = Ctx { rep: &mut rep, reported: Default::default() };
     single_grid(&mut ctx, tier);
     listener_grid(&mut ctx);
+    trigger::run(&mut ctx);
     stacks::run(&mut ctx);
     if tier == Tier::Thorough {
         pair_grid(&mut ctx);
@@ -352,7 +353,7 @@ fn main() {
         ctx.rep.witness("pair_composed", 0);
     }
     drop(ctx);
-    for w in ["ok", "pass_through_err", "readiness_err", "further_attempts_made", "listener_panicked_and_was_contained", "stack_ran"] {
+    for w in ["ok", "pass_through_err", "readiness_err", "further_attempts_made", "listener_panicked_and_was_contained", "event_kinds_triggered", "stack_ran"] {
         rep.require_witness(w);
     }
     rep.bounds = json!({"variants": ALL.len(), "inner_kinds": 3, "readiness_scripts": 3, "listener_subsets": 8});
